@@ -4,6 +4,8 @@ import (
 	"fmt"
 	"sort"
 	"strings"
+
+	"golang.org/x/tools/go/ssa"
 )
 
 // C06/R3 type-argument-followers.
@@ -112,5 +114,59 @@ func c06TypeArgFollowers(p *Prog) *RuleResult {
 		r.Note("tokens singled out by the function beyond the reference table (not judged): " + strings.Join(others, ", "))
 	}
 	r.Floor(12)
+	return r
+}
+
+// C06/R4 enum-value discriminant.
+//
+// A constant TypeScript enum member travels between modules as js_ast.TSEnumValue{String, Number}
+// where `String == nil` means "numeric member" — the empty string is a legitimate string value
+// (`None = ''`) and is represented by a non-nil, empty slice. Every decision between the two
+// alternatives must therefore be a nil comparison of the String field; deciding by its length
+// turns `''` into the number 0 wherever the value is inlined. Rule: no branch condition in the
+// module is computed from len() of a TSEnumValue's String field, and the discriminating nil tests
+// that exist today are still there.
+func c06EnumDiscriminant(p *Prog) *RuleResult {
+	r := NewRule("C06/R4 enum-value-discriminant", "the string/number alternative of an inlined TypeScript enum value is always decided by `String != nil`, never by the string's length (the empty string is a valid enum value)")
+	nilTests := 0
+	isEnumString := func(v ssa.Value) bool {
+		o, n, ok := loadedField(v)
+		return ok && n == "String" && o == "js_ast.TSEnumValue"
+	}
+	for _, fn := range p.ModuleFuncs() {
+		k := 0
+		eachInstr(fn, func(b *ssa.BasicBlock, in ssa.Instruction) {
+			switch x := in.(type) {
+			case *ssa.BinOp:
+				for _, side := range []ssa.Value{x.X, x.Y} {
+					if isEnumString(side) {
+						other := x.Y
+						if side == x.Y {
+							other = x.X
+						}
+						if c, ok := other.(*ssa.Const); ok && c.Value == nil {
+							nilTests++
+							r.Instances++
+							r.OK(fmt.Sprintf("%s nil test #%d", FuncName(fn), nilTests), true, "String compared with nil")
+						}
+					}
+					// len(value.String) compared with something
+					if call, ok := side.(*ssa.Call); ok {
+						if bi, ok := call.Call.Value.(*ssa.Builtin); ok && bi.Name() == "len" && len(call.Call.Args) == 1 && isEnumString(call.Call.Args[0]) {
+							// only a problem when the comparison decides a branch or a value (not a bounds check of an index)
+							if _, isIdx := x.X.(*ssa.Phi); isIdx {
+								continue
+							}
+							k++
+							r.Instances++
+							r.Fail(fmt.Sprintf("%s length test #%d", FuncName(fn), k), p.Pos(x.Pos()), "the string/number alternative of a TSEnumValue is decided by the length of its String field: an enum member whose value is the empty string is then treated as the number 0 when it is inlined across modules")
+						}
+					}
+				}
+			}
+		})
+	}
+	r.Anchor("nil tests of js_ast.TSEnumValue.String", nilTests >= 1)
+	r.Floor(1)
 	return r
 }
